@@ -8,6 +8,7 @@ import re
 import shutil
 import subprocess
 import tempfile
+import time
 import traceback
 
 from .. import c3prog as genc3, irsem
@@ -387,12 +388,15 @@ def _worker(arg):
     tmp = tempfile.mkdtemp(prefix="vf-C37-")
     prof = profile(quick)
     pending = {}
-    state = {"shrinking": False}
+    state = {"shrinking": False, "t_end": None}
+    shrink_budget = 60 if quick else 300  # seconds (DESIGN.md 2.2: collect-then-shrink with a cap)
 
     def prop(case):
         key = jhash([case["program"], case["calls"]])
         if key in pending:
             return None
+        if state["shrinking"] and time.time() > state["t_end"]:
+            return None  # shrink budget used up: Hypothesis stops making progress and the smallest case so far is kept
         front = Front(case, None if state["shrinking"] else stats)
         msg, compared = front.verdict()
         if state["shrinking"]:
@@ -404,6 +408,7 @@ def _worker(arg):
             kid = classify(case, msg)
             if not (kid and kid in open_finding_ids(PID)):
                 state["shrinking"] = True  # hyp_search stops generating and shrinks this case
+                state["t_end"] = time.time() + shrink_budget
         return msg
 
     try:
